@@ -10,9 +10,10 @@ import random
 
 PROPERTY = "C08"
 RULE = (
-    "case = (module kind in {kernel (14 specs), mean, likelihood marginal, exact GP posterior+MLL, SVGP q(f)+KL+ELBO, model list/SumMLL}, "
-    "parameter batch shape x data batch shape from {(), (2), (3,2), (1,2), (3,1)} - every broadcastable pair -, seed); every element of the "
-    "broadcast batch is compared; distinct = cell without seed; non-trivial iff the broadcast batch has >= 2 elements"
+    'case = (module kind in {kernel (14 specs), mean, likelihood marginal, exact GP posterior+MLL, SVGP q(f)+KL+ELBO, model list/SumMLL}, '
+    'parameter batch shape x data batch shape from {(), (2), (3,2), (1,2), (3,1)} - every broadcastable pair -, target-only batch dimensions for '
+    'the MLL, every strategy x variational distribution, seed); every element of the broadcast batch is compared; distinct = cell without seed; '
+    'non-trivial iff the broadcast batch has >= 2 elements'
 )
 REQUIRED = ["kernel_replica", "mean_replica", "likelihood_replica", "posterior_replica", "mll_replica", "svgp_replica", "kl_replica", "elbo_replica", "model_list_identical", "sum_mll_is_mean"]
 ASSUMPTIONS = ["replicas are built by slicing the batched object's state_dict: a tensor with batch dims (possibly size-1) is indexed with the element's index (0 on size-1 dims)"]
